@@ -669,6 +669,56 @@ func ruleCL6(c *Ctx) []*Ob {
 			}
 		}
 	}
+	// CL-7 (part of CL-6): every cycle of the merger loop answers the pings it collected
+	rm := c.Fn("(*collection).runMerger")
+	reply := c.Fn("replyToPings")
+	replyBlocks := map[*ssa.BasicBlock]bool{}
+	for _, b := range rm.Blocks {
+		for _, i := range b.Instrs {
+			if isCallOf(i, reply) {
+				if _, isDefer := i.(*ssa.Defer); !isDefer {
+					replyBlocks[b] = true
+				}
+			}
+		}
+	}
+	var unanswered *ssa.BasicBlock
+	for _, b := range rm.Blocks {
+		if replyBlocks[b] || sccOf(rm, b) == nil {
+			continue
+		}
+		seen := map[*ssa.BasicBlock]bool{}
+		var dfs func(x *ssa.BasicBlock) bool
+		dfs = func(x *ssa.BasicBlock) bool {
+			for _, s := range x.Succs {
+				if replyBlocks[s] {
+					continue
+				}
+				if s == b {
+					return true
+				}
+				if !seen[s] {
+					seen[s] = true
+					if dfs(s) {
+						return true
+					}
+				}
+			}
+			return false
+		}
+		if dfs(b) {
+			unanswered = b
+			break
+		}
+	}
+	if len(replyBlocks) == 0 {
+		o.add(c.fname(rm), "every merger cycle answers its pings", c.pos(rm.Pos()), false, "anchor lost: runMerger never calls replyToPings in its loop")
+	} else if unanswered != nil {
+		o.add(c.fname(rm), "every merger cycle answers its pings", c.instrPos(unanswered.Instrs[0]), false,
+			"a cycle of the merger loop (e.g. the `continue` after a failed merge) does not pass replyToPings(): a synchronous NotifyMerger collected in that cycle is never answered and blocks until Close")
+	} else {
+		o.add(c.fname(rm), "every merger cycle answers its pings", c.pos(rm.Pos()), true, "every cycle of the loop passes replyToPings(pings)")
+	}
 	// mergerWaitForWork's blocking select offers stopCh and reports it
 	okSel := false
 	eachInstr(mwfw, func(i ssa.Instruction) {
